@@ -4,13 +4,13 @@
 set -e
 D=${DEVDIR:-/tmp/vb}
 export GOFLAGS=-mod=mod GOPROXY=off GOSUMDB=off GOTOOLCHAIN=local
-mkdir -p $D && rm -rf $D/sim && cp -r /verif/sim $D/sim
+mkdir -p $D && rm -rf $D/sim && cp -r ${VROOT:-/verif}/sim $D/sim
 # DEV_KEEP_REPO=1 keeps (a possibly hand-mutated) $D/repo instead of re-copying /repo: used to try
 # deliberate breakages of the library without ever touching /repo.
 if [ -z "$DEV_KEEP_REPO" ] || [ ! -d $D/repo ]; then
   rm -rf $D/repo && mkdir $D/repo
   (cd /repo && git ls-files | grep -v '_test.go$' | grep -v '^examples/' | tar -c -T - | tar -x -C $D/repo)
-  /verif/bin/instrument -repo $D/repo -hooks /verif/hooks
+  ${VROOT:-/verif}/bin/instrument -repo $D/repo -hooks ${VROOT:-/verif}/hooks
 fi
 cd $D/sim && cp go.mod.tmpl go.mod && cat /repo/go.sum go.sum.extra > go.sum
 # Families that do not compile right now (someone else's work in progress) are left out of the
